@@ -15,7 +15,38 @@ func verifValidPrefix() []byte {
 
 // VerifC04Options: concrete valid header, every options area of n symbolic bytes.
 func VerifC04Options(n int) {
-	area := verifBytes("opt", n)
+	verifC04Area(verifBytes("opt", n))
+}
+
+// verifShapedArea builds an options area of up to four option instances with the given value
+// lengths (-1: no such instance), symbolic codes 1..254 (so instances may or may not share a code:
+// every partition is explored) and symbolic values, optionally one pad byte between instances,
+// terminated by End.
+func verifShapedArea(lens []int, pad int) []byte {
+	var area []byte
+	for i, l := range lens {
+		if l < 0 {
+			continue
+		}
+		c := verifU8("code")
+		verifAssume(c >= 1)
+		verifAssume(c <= 254)
+		if pad != 0 && i > 0 {
+			area = append(area, 0)
+		}
+		area = append(area, c, byte(l))
+		area = append(area, verifBytes("val", l)...)
+	}
+	return append(area, 255)
+}
+
+// VerifC04Shaped: areas longer than the exhaustive sizes: up to four instances of the given
+// lengths with symbolic codes and values (repeated codes separated by other options included).
+func VerifC04Shaped(l1, l2, l3, l4, pad int) {
+	verifC04Area(verifShapedArea([]int{l1, l2, l3, l4}, pad))
+}
+
+func verifC04Area(area []byte) {
 	pkt := append(verifValidPrefix(), area...)
 	p, err := FromBytes(pkt)
 	ref, _, refOK := refOptions(area)
